@@ -156,6 +156,8 @@ fn real_main() -> i32 {
         "crossid" => families::crossid(&a),
         "badopts" => families::badopts(&a),
         "blockcmp" => families::blockcmp(&a),
+        "q0wrap" => families::q0wrap(&a),
+        "oneread" => families::oneread(&a),
         "chunk" => families::chunk(&a),
         "fuzz" => families::fuzz(&a),
         "endings" => families::endings(&a),
